@@ -64,8 +64,13 @@ type interiorSite struct {
 	id        int
 }
 
-func (x *Exec) sitesFor(elem types.Type) []interiorSite {
+func (x *Exec) sitesFor(elem types.Type) []interiorSite { return x.P.sitesFor(elem) }
+
+func (P *Prog) sitesFor(elem types.Type) []interiorSite {
+	x := &Exec{P: P}
 	key := elem.String()
+	P.siteMu.Lock()
+	defer P.siteMu.Unlock()
 	if s, ok := x.P.sites[key]; ok {
 		return s
 	}
@@ -395,7 +400,7 @@ func elemOfSliceType(t types.Type) types.Type {
 
 func (x *Exec) sliceHeap(t types.Type) (string, types.Type) {
 	if isString(t) {
-		return "HS_string", types.Typ[types.Uint8]
+		return "HS_strbytes", types.Typ[types.Uint8]
 	}
 	el := elemOfSliceType(t)
 	return x.P.ss.heapKey(el, true), el
